@@ -12,7 +12,8 @@ RUN_MODULE = "C19.Run"
 TWO_PHASE = True
 RULE = ("case = K <method_timeout|-> <calls> <steps>: 1-12 concurrent calls on ONE real p2p Connection over a scripted socket "
         "(kinds: Connection::call_method, Proxy::call, Proxy::call_with_flags(NoAutoStart), Proxy::call_noreply; the call's sendmsg "
-        "answers Pending 0-3 times or fails) and an explicit interleaving of single steps: poll caller i once, tick the connection's "
+        "answers Pending 0-3 times, or fails, or lets the bytes out at once but returns only at the next poll — so that the peer's "
+        "reply can be handled completely by the socket reader before send() has returned) and an explicit interleaving of single steps: poll caller i once, tick the connection's "
         "executor once (internal_executor(false): the socket reader only runs then), the peer answers call i with a return / an error "
         "(also twice, also before the caller is polled again, also while the caller is still inside send()), stray returns/errors with "
         "the serial of a call never made, signals, a signal and a method call carrying a pending call's serial as reply_serial, EOF / "
@@ -54,14 +55,14 @@ def gen_case(rng, tier):
         r = rng.random()
         k = "m" if r < 0.6 else "p" if r < 0.75 else "n" if r < 0.9 else "f"
         w = rng.random()
-        wd = "0" if w < 0.7 else "x" if w < 0.74 else str(rng.randint(1, 3))
+        wd = "0" if w < 0.66 else "x" if w < 0.70 else "L" if w < 0.80 else str(rng.randint(1, 3))
         kinds.append(k + wd)
     steps = []
     polled = [0] * n                      # how often each caller was polled (rough: written once polled wd+1 times)
 
     def written(i):
         w = kinds[i][1:]
-        return w != "x" and polled[i] > int(w)
+        return w != "x" and polled[i] > (0 if w == "L" else int(w))
 
     def poll(i):
         steps.append("c%d" % i)
